@@ -444,7 +444,9 @@ def m_shutil_move(I_, a, k):
                         'delete; failures leave partial copies')
     src, dst0 = z3str(a[0]), z3str(a[1])
     dst = dst0
+    dst_was_dir = False
     if ctx.branch(fs.kind(dst0) == DIR, 'move-dst-isdir'):
+        dst_was_dir = True
         # (the samefile case-insensitive special case is ignored)
         b = spec.basename(ctx, spec.rstrip_slashes(ctx, src))
         dst = spec.join(dst0, b)
@@ -458,10 +460,12 @@ def m_shutil_move(I_, a, k):
     try:
         m_rename(I_, [mk(src), mk(dst)], {})
         fs.events[-1].extra['via'] = 'shutil.move'
+        fs.events[-1].extra['dst_was_dir'] = dst_was_dir
         return mk(dst)
     except PyExc as pe:
         rename_ev = fs.events[-1]
         rename_ev.extra['via'] = 'shutil.move'
+        rename_ev.extra['dst_was_dir'] = dst_was_dir
         if not pe.value.cls.issubclass(I_.lib.exc_classes['OSError']):
             raise
     # copy phase
